@@ -110,6 +110,10 @@ typedef char *ll2c_ptr;
 #ifdef LL2C_CBMC
 #define LL2C_UF2(name, op, a, b) ll2c_uf_##name((a), (b))
 #define LL2C_UFCALL(name) __CPROVER_uninterpreted_uf_##name
+float __CPROVER_uninterpreted_fadd_f32(float, float);
+float __CPROVER_uninterpreted_fsub_f32(float, float);
+double __CPROVER_uninterpreted_fadd_f64(double, double);
+double __CPROVER_uninterpreted_fsub_f64(double, double);
 float __CPROVER_uninterpreted_fmul_f32(float, float);
 float __CPROVER_uninterpreted_fdiv_f32(float, float);
 double __CPROVER_uninterpreted_fmul_f64(double, double);
@@ -117,6 +121,17 @@ double __CPROVER_uninterpreted_fdiv_f64(double, double);
 #else
 #define LL2C_UF2(name, op, a, b) ((a)op(b))
 #define LL2C_UFCALL(name) name
+#endif
+
+#ifdef LL2C_CBMC
+#define LL2C_X86APPROX(fn, x) __CPROVER_uninterpreted_x86_##fn(x)
+#else
+#define LL2C_X86APPROX(fn, x) ll2c_native_##fn(x)
+#if defined(__SSE__)
+#include <xmmintrin.h>
+static inline float ll2c_native_rsqrt(float x) { return _mm_cvtss_f32(_mm_rsqrt_ss(_mm_set_ss(x))); }
+static inline float ll2c_native_rcp(float x) { return _mm_cvtss_f32(_mm_rcp_ss(_mm_set_ss(x))); }
+#endif
 #endif
 
 /* bit casts */
@@ -157,10 +172,18 @@ static inline double ll2c_bits_f64(u64 u) {
 /* multiplication is abstracted as a COMMUTATIVE uninterpreted function (operands ordered by bit pattern) */
 static inline float ll2c_uf_fmul_f32(float a, float b) { return ll2c_f32_bits(a) <= ll2c_f32_bits(b) ? __CPROVER_uninterpreted_fmul_f32(a, b) : __CPROVER_uninterpreted_fmul_f32(b, a); }
 static inline double ll2c_uf_fmul_f64(double a, double b) { return ll2c_f64_bits(a) <= ll2c_f64_bits(b) ? __CPROVER_uninterpreted_fmul_f64(a, b) : __CPROVER_uninterpreted_fmul_f64(b, a); }
+static inline float ll2c_uf_fadd_f32(float a, float b) { return ll2c_f32_bits(a) <= ll2c_f32_bits(b) ? __CPROVER_uninterpreted_fadd_f32(a, b) : __CPROVER_uninterpreted_fadd_f32(b, a); }
+static inline double ll2c_uf_fadd_f64(double a, double b) { return ll2c_f64_bits(a) <= ll2c_f64_bits(b) ? __CPROVER_uninterpreted_fadd_f64(a, b) : __CPROVER_uninterpreted_fadd_f64(b, a); }
+static inline float ll2c_uf_fsub_f32(float a, float b) { return __CPROVER_uninterpreted_fsub_f32(a, b); }
+static inline double ll2c_uf_fsub_f64(double a, double b) { return __CPROVER_uninterpreted_fsub_f64(a, b); }
 static inline float ll2c_uf_fdiv_f32(float a, float b) { return __CPROVER_uninterpreted_fdiv_f32(a, b); }
 static inline double ll2c_uf_fdiv_f64(double a, double b) { return __CPROVER_uninterpreted_fdiv_f64(a, b); }
 #endif
 /* clause-side spellings of the same abstraction (plain arithmetic natively) */
+#define SPEC_FADD32(a, b) LL2C_UF2(fadd_f32, +, (float)(a), (float)(b))
+#define SPEC_FSUB32(a, b) LL2C_UF2(fsub_f32, -, (float)(a), (float)(b))
+#define SPEC_FADD64(a, b) LL2C_UF2(fadd_f64, +, (double)(a), (double)(b))
+#define SPEC_FSUB64(a, b) LL2C_UF2(fsub_f64, -, (double)(a), (double)(b))
 #define SPEC_FMUL32(a, b) LL2C_UF2(fmul_f32, *, (float)(a), (float)(b))
 #define SPEC_FDIV32(a, b) LL2C_UF2(fdiv_f32, /, (float)(a), (float)(b))
 #define SPEC_FMUL64(a, b) LL2C_UF2(fmul_f64, *, (double)(a), (double)(b))
